@@ -10,7 +10,6 @@ This module is imported by props/c06.py (the server half lives there); it expose
 CLIENT_RULE, CLIENT_ASSUMPTIONS, client_bounds, client_shards, run_client_shard, replay_client_case.
 """
 import collections
-import hashlib
 import itertools
 import json
 import logging
@@ -43,12 +42,13 @@ CLIENT_RULE = (
     'of the own reply of the previous call on the same client, F foreign reply (flavour other: an id no call '
     'ever had / near: the call\'s id with its last digit changed / noid: no id field / null: id null), D '
     'duplicate = byte-identical second copy of the own reply, T nothing arrives for 1.1 x timeout}; all pairs '
-    '(s1, s2) are run; a script is played from the instant the real call() sends its request (ids are read '
+    '(s1, s2) are run, for every latency and flavour of the blocks listed under bounds; a script is played from the instant the real call() sends its request (ids are read '
     'from the request frame; uuid4 is a counter), each message becoming readable `latency` x timeout after the '
     'previous event; after the script nothing ever arrives. Every case makes three calls on one client object: a '
     'priming call answered at once (so that S in s1 has an earlier id to bear), call 1, call 2; whatever of s1 '
-    'call 1 did not consume (a duplicate, an own reply that came after call 1 gave up, ...) is waiting on the '
-    'socket when call 2 starts. The flavour is enumerated only for pairs containing an F, so cases are pairwise '
+    'call 1 did not consume (a duplicate, an own reply that came after call 1 gave up, ...) arrives before '
+    'call 2 starts and is on the socket then (with AsyncCircusClient the stream keeps reading between calls, '
+    'so only what its callback failed to take is still there). The flavour is enumerated only for pairs containing an F, so cases are pairwise '
     'distinct as inputs (scripts differing only in O vs D before any O are distinct inputs with equal '
     'behaviour). Each call is judged against the reference verdict for what was actually readable during it. '
     'Non-trivial case: some call had to discard a message or sit through a silence before its verdict. '
@@ -73,7 +73,9 @@ CLIENT_ASSUMPTIONS = [
     'timeout (sync) and the IOLoop clock (async), both virtual',
     'not covered: replies that are not JSON objects (invalid JSON, arrays, scalars), multi-frame replies, zmq '
     'errors from send/poll/recv (EINTR, ETERM), several calls in flight at once on one AsyncCircusClient, ssh '
-    'tunnels, the real zmq transport',
+    'tunnels, the real zmq transport (the scripted async socket was compared by hand with real ROUTER/DEALER '
+    'sockets on the scripts O, FO, FFO, FFFO, OF at latency 0 and on the two-call cases OOO / OFF then O: same '
+    'outcomes, including both hangs listed as F17)',
     'when a call hangs the check abandons it (sync: unwinds it; async: leaves its coroutine pending, as '
     'gen.with_timeout around it would) and goes on to the next call on the same client',
 ]
@@ -96,8 +98,9 @@ _PLANS = {
                   {'L': 2, 'lat': ['0', 'h'], 'flavours': _ALL}],
     },
     'thorough': {
-        'sync': [{'L': 4, 'lat': ['0', 'm', 'h'], 'flavours': _ALL}],
-        'async': [{'L': 4, 'lat': ['0', 'h'], 'flavours': ['other']},
+        'sync': [{'L': 4, 'lat': ['0', 'h'], 'flavours': ['other']},
+                 {'L': 3, 'lat': ['0', 'm', 'h'], 'flavours': _ALL}],
+        'async': [{'L': 4, 'lat': ['0'], 'flavours': ['other']},
                   {'L': 3, 'lat': ['0', 'm', 'h'], 'flavours': _ALL}],
     },
 }
@@ -158,7 +161,7 @@ def client_shards(tier):
     for cl in ('async', 'sync'):            # the slower family first
         plan = _PLANS[tier][cl]
         scripts = _scripts(max(b['L'] for b in plan))
-        scripts.sort(key=lambda w: (-len(w), w))     # long first scripts first: they have the most partners
+        scripts.sort(key=lambda w: (len(w), w))      # short scripts first: the first witness kept is a small one
         chunk = _CHUNK[cl]
         for i in range(0, len(scripts), chunk):
             out.append({'client': cl, 's1': scripts[i:i + chunk]})
@@ -171,7 +174,7 @@ def _cases_of(shard, tier):
     for s1 in shard['s1']:
         for s2 in scripts:
             for lat, fl in _variants(plan, s1, s2):
-                yield {'client': shard['client'], 's1': s1, 's2': s2, 'lat': lat, 'foreign': fl}
+                yield {'kind': 'client', 'client': shard['client'], 's1': s1, 's2': s2, 'lat': lat, 'foreign': fl}
 
 
 # ------------------------------------------------------------------------------------------ scripted wire
@@ -538,8 +541,11 @@ class _LogTrap(logging.Handler):
         self.saved = []
 
     def emit(self, record):
+        # only exceptions logged as errors are kept (by type name): what else is logged depends on logger
+        # levels other parts of the framework may have set in this worker process
         exc = record.exc_info[1] if record.exc_info else None
-        self.records.append(type(exc).__name__ if exc is not None else record.getMessage()[:60])
+        if exc is not None and record.levelno >= logging.ERROR:
+            self.records.append(type(exc).__name__)
 
     def __enter__(self):
         for n in self.NAMES:
@@ -653,58 +659,57 @@ def _run_async(case, patched):
     out = []
     io = client = ctx = None
     trap = patched.trap
-    if True:
+    try:
+        io = ioloop.IOLoop.current()
+        wire = _AsyncWire(case['foreign'], loop, CLOCK)
+        ctx = _Context(lambda kind: _AsyncSocket(wire, kind))
+        client = CC.AsyncCircusClient(context=ctx, timeout=TIMEOUT_S)
+        for k, script, lat in ((0, 'O', '0'), (1, case['s1'], case['lat']), (2, case['s2'], case['lat'])):
+            # between two calls: everything still on its way arrives
+            while loop.next_timer() is not None:
+                CLOCK.advance_to(loop.next_timer())
+                loop.iterate()
+            for _ in range(50):
+                if not loop.runnable_now():
+                    break
+                loop.iterate()
+            CLOCK.advance_to(CLOCK.now + 1.0)
+            del trap.records[:]
+            wire.begin_call(k, script, lat)
+            result, value, exc, hang, its = None, None, None, None, 0
+            try:
+                fut = client.call(_request())
+                hang, its = _drive(loop, CLOCK, fut)
+                if hang is not None:
+                    result = 'hang'
+                else:
+                    value = fut.result()
+                    result = 'return'
+            except CallError as e:
+                result, exc = 'raise', ('CallError', str(e))
+            except Hang as e:
+                result, hang = 'hang', str(e)
+            except Exception as e:
+                result, exc = 'raise', (type(e).__name__, str(e)[:120])
+            out.append(_observe(wire, k, script, result, value, exc, hang, its, sorted(set(trap.records))))
+    finally:
         try:
-            io = ioloop.IOLoop.current()
-            wire = _AsyncWire(case['foreign'], loop, CLOCK)
-            ctx = _Context(lambda kind: _AsyncSocket(wire, kind))
-            client = CC.AsyncCircusClient(context=ctx, timeout=TIMEOUT_S)
-            for k, script, lat in ((0, 'O', '0'), (1, case['s1'], case['lat']), (2, case['s2'], case['lat'])):
-                # between two calls: everything still on its way arrives
-                while loop.next_timer() is not None:
-                    CLOCK.advance_to(loop.next_timer())
-                    loop.iterate()
-                for _ in range(50):
-                    if not loop.runnable_now():
-                        break
-                    loop.iterate()
-                CLOCK.advance_to(CLOCK.now + 1.0)
-                del trap.records[:]
-                wire.begin_call(k, script, lat)
-                result, value, exc, hang, its = None, None, None, None, 0
-                try:
-                    fut = client.call(_request())
-                    hang, its = _drive(loop, CLOCK, fut)
-                    if hang is not None:
-                        result = 'hang'
-                    else:
-                        value = fut.result()
-                        result = 'return'
-                except CallError as e:
-                    result, exc = 'raise', ('CallError', str(e))
-                except Hang as e:
-                    result, hang = 'hang', str(e)
-                except Exception as e:
-                    result, exc = 'raise', (type(e).__name__, str(e)[:120])
-                out.append(_observe(wire, k, script, result, value, exc, hang, its, sorted(set(trap.records))))
-        finally:
-            try:
-                if client is not None:
-                    client.stop()
-            except Exception:
-                pass
-            for s in (ctx.sockets if ctx is not None else []):
-                s.close()
-            try:
-                if io is not None:
-                    io.close()
-            except Exception:
-                pass
-            try:
-                loop.close()
-            except Exception:
-                pass
-            unmake_current()
+            if client is not None:
+                client.stop()
+        except Exception:
+            pass
+        for s in (ctx.sockets if ctx is not None else []):
+            s.close()
+        try:
+            if io is not None:
+                io.close()
+        except Exception:
+            pass
+        try:
+            loop.close()
+        except Exception:
+            pass
+        unmake_current()
     return out
 
 
@@ -894,7 +899,3 @@ def replay_client_case(case):
         if not ok:
             out.append((clause, det(), WHERE[case['client']]))
     return out
-
-
-def _digest(obj):
-    return hashlib.sha1(repr(obj).encode()).hexdigest()[:12]
